@@ -545,7 +545,7 @@ class AutoEngine(Engine):
                             if kind == "ro":
                                 continue
                             v = _gen_tracked("bytes" if kind == "bytes" else "ints", ch, uniq)
-                            t[name] = v[:200] if isinstance(v, bytes) else v
+                            t[name] = v[:200]           # what goes on the wire must fit its one-byte count / length
                         ts.append(t)
                     raw = decl["raw"](ts, ch)
                     canon = decl["raw"](ts, _Zero())
